@@ -8,8 +8,20 @@ ASSUMPTIONS = ['the theorem quantifies over all schedules of the lock-table mode
 
 
 def run(ctx, ps, gen_bad):
-    return seqprops.run(ctx, 'C06', ps, gen_bad)
+    fails, cov = seqprops.run(ctx, 'C06', ps, gen_bad)
+    # a RENAME onto an existing target held between giving up and re-taking its locks while the target is removed: its
+    # second locking attempt fails half-way and must leave no lock behind (the call and everybody after it must return)
+    import concengine
+    f2, c2 = concengine.run(ctx, 'C06', [('renamegone', 3, 6, 5 if ctx.quick else 120)], kinds={'panic', 'trace', 'lin'})
+    fails += f2
+    cov['concurrent_histories_with_a_failing_relock'] = c2['evaluations']
+    cov['evaluations'] += c2['evaluations']
+    return fails, cov
 
 
 def replay(ctx, path):
+    import json
+    if 'shape' in json.load(open(path)):
+        import concengine
+        return concengine.replay(ctx, path)
     return seqprops.replay(ctx, path)
